@@ -234,31 +234,53 @@ example : hashIndex 0x80000000 3 = 2 ∧ hashIndex 0xFFFFFFFF 3 = 1 ∧ refHashI
 
 /-! ## 6. RoundRobin -/
 
-/-- Partial (D10): for the first 2³² calls of a RoundRobin with `1 ≤ ChunkSize < 2³²`, call number `j`
-(from 0) returns `parts[(j / ChunkSize) % |parts|]`: runs of ChunkSize calls on one partition, cycling
-through the list in order. -/
-theorem roundRobin_cycle_partial (parts : List Int) (hp : parts ≠ []) (ch : Int) (h1 : 1 ≤ ch) (h2 : ch < 4294967296)
-    (n : Nat) (hn : n ≤ 4294967296) :
-    (RoundRobin.run ⟨ch, 0⟩ parts n).2 = (List.range n).map (fun j => parts[(j / ch.toNat) % parts.length]?) := by
-  have := rr_run parts hp ch h1 h2 n 0 ⟨ch, 0⟩ rfl (fun _ => rfl) (by omega)
+/-- For EVERY number of calls of a fresh RoundRobin with `ChunkSize ≥ 1` on a fixed non-empty list, call number `j`
+(from 0) returns `parts[(j / ChunkSize) % |parts|]`: runs of ChunkSize calls on one partition, cycling through the list
+in order.  No bound on the number of calls or on ChunkSize (the balancer keeps a position and a per-chunk count, both
+bounded by the list length resp. ChunkSize, so no Go `int` overflows; before the fix of D10 this held for the first
+2³² calls only, see `roundRobin_legacy_wrap_counterexample`). -/
+theorem roundRobin_cycle (parts : List Int) (hp : parts ≠ []) (ch : Int) (h1 : 1 ≤ ch) (n : Nat) :
+    (RoundRobin.run (RoundRobin.fresh ch) parts n).2 = (List.range n).map (fun j => parts[(j / ch.toNat) % parts.length]?) := by
+  have := rr_run parts hp ch h1 n 0 (RoundRobin.fresh ch) (rrAt_fresh ch parts.length)
   simpa using this
 
-/-- every RoundRobin call returns an offered partition (any counter, any valid chunk size) -/
-theorem roundRobin_offered (rr : RoundRobin) (parts : List Int) (hp : parts ≠ [])
-    (h1 : 1 ≤ rr.chunkSize) (h2 : rr.chunkSize < 4294967296) :
+/-- the same from any point of the cycle: a balancer that is where `calls` calls leave it continues the cycle at call
+number `calls` — in particular across 2³² and 2⁶⁴ calls -/
+theorem roundRobin_cycle_from (parts : List Int) (hp : parts ≠ []) (ch : Int) (h1 : 1 ≤ ch) (calls n : Nat) :
+    (RoundRobin.run (RoundRobin.placed ch calls parts.length) parts n).2 =
+      (List.range n).map (fun j => parts[((calls + j) / ch.toNat) % parts.length]?) :=
+  rr_run parts hp ch h1 n calls _ (rrAt_placed ch h1 calls parts.length)
+
+/-- the counters stay small: after any number of calls `count ≤ ChunkSize` and `index < |parts|` (no `int` overflow) -/
+theorem roundRobin_state_bounded (parts : List Int) (hp : parts ≠ []) (ch : Int) (h1 : 1 ≤ ch) (k : Nat) (rr : RoundRobin)
+    (hi : RRAt ch parts.length k rr) : rr.count ≤ ch ∧ rr.index < parts.length := by
+  obtain ⟨_, q, r, _, hr, hidx, hcnt⟩ := hi
+  have hL : 0 < parts.length := List.length_pos_iff.mpr hp
+  refine ⟨?_, by rw [hidx]; exact Nat.mod_lt _ hL⟩
+  rw [hcnt]; simp only [Int.ofNat_eq_natCast]; omega
+
+/-- every RoundRobin call returns an offered partition (any state, any chunk size) -/
+theorem roundRobin_offered (rr : RoundRobin) (parts : List Int) (hp : parts ≠ []) :
     ∃ p, (rr.balance parts).2 = some p ∧ p ∈ parts := by
-  rw [rr_single rr parts h1 h2 hp]
-  exact getElem?_mem_of_lt parts _ (Nat.mod_lt _ (List.length_pos_iff.mpr hp))
+  have hL : 0 < parts.length := List.length_pos_iff.mpr hp
+  unfold RoundRobin.balance
+  simp only
+  generalize (if rr.chunkSize < 1 then { rr with chunkSize := 1 } else rr) = rr1
+  generalize (if rr1.count ≥ rr1.chunkSize then { rr1 with count := 0, index := rr1.index + 1 } else rr1) = rr2
+  by_cases h : rr2.index ≥ parts.length
+  · simp only [h, if_true]; exact getElem?_mem_of_lt parts 0 hL
+  · simp only [h, if_false]; exact getElem?_mem_of_lt parts _ (by omega)
 
 /-- `ChunkSize < 1` behaves as `ChunkSize = 1` -/
-theorem roundRobin_chunk_default (c : Int) (hc : c < 1) (ctr : UInt32) (parts : List Int) :
-    (RoundRobin.balance ⟨c, ctr⟩ parts).2 = (RoundRobin.balance ⟨1, ctr⟩ parts).2 := by
+theorem roundRobin_chunk_default (c : Int) (hc : c < 1) (idx : Nat) (cnt : Int) (parts : List Int) :
+    (RoundRobin.balance ⟨c, idx, cnt⟩ parts).2 = (RoundRobin.balance ⟨1, idx, cnt⟩ parts).2 := by
   simp [RoundRobin.balance, hc]
 
-/-- D10: the full statement fails at the 2³² wrap — with 3 partitions and ChunkSize 1 two consecutive
-calls return the same partition. -/
-theorem roundRobin_wrap_counterexample :
-    (RoundRobin.run ⟨1, 4294967295⟩ [0, 1, 2] 2).2 = [some 0, some 0] := by decide
+/-- D10 (fixed): the former call-counter version failed at the 2³² wrap — with 3 partitions and ChunkSize 1 two
+consecutive calls returned the same partition; the current one continues the cycle there. -/
+theorem roundRobin_legacy_wrap_counterexample :
+    (RoundRobinLegacy.run ⟨1, 4294967295⟩ [0, 1, 2] 2).2 = [some 0, some 0] ∧
+    (RoundRobin.run (RoundRobin.placed 1 4294967295 3) [0, 1, 2] 2).2 = [some 0, some 1] := by decide
 
 /-! ## 7. LeastBytes -/
 
@@ -418,7 +440,7 @@ theorem early_put_counterexample :
 
 example : (iota 3) ≠ [] ∧ (iota 3).length < 4294967296 ∧ (iota 3).Nodup := by decide
 example : murmur2Balance Gen.balancerConsts false 0 (some [0x6b, 0x61, 0x66, 0x6b, 0x61]) (iota 7) = some 3 := by decide
-example : (RoundRobin.run ⟨2, 0⟩ [10, 20, 30] 7).2 = [some 10, some 10, some 20, some 20, some 30, some 30, some 10] := by decide
+example : (RoundRobin.run (RoundRobin.fresh 2) [10, 20, 30] 7).2 = [some 10, some 10, some 20, some 20, some 30, some 30, some 10] := by decide
 example : ((⟨[]⟩ : LeastBytes).balance 5 [2, 0, 1]).2 = some 0 := by decide
 example : LBReach [2, 0, 1] ((⟨[]⟩ : LeastBytes).balance 5 [2, 0, 1]).1 [(0, 5)] :=
   LBReach.step ⟨[]⟩ [] 5 0 LBReach.init (by decide)
